@@ -168,6 +168,10 @@ def gen_cases(rec, rng, tier):
             # push X `length` times is impossible without a counter; instead: pop-all loop after reading a's
             T = [('q0', 'a', None, 'q0', 'X'), ('q0', 'b', None, 'q1', None), ('q1', None, 'X', 'q1', None), ('q1', None, None, 'q2', None)]
             yield {'cls': 'long_pop_loop', 'ref': pd.make(Q, 'ab', 'X', T, 'q0', ['q2']), 'n': 0, 'limit': lim, 'eps': '', 'words': ['a' * length + 'b']}
+    for i, (cls, RPa) in enumerate(pdag.concatenation_ambiguous_stacks()):
+        if i % 4 == rec.shard % 4:
+            for lim in (10, 1000):
+                yield {'cls': cls, 'ref': RPa, 'n': 3 if len(RPa[1]) > 2 else 4, 'limit': lim, 'eps': ''}
     # long words on counting / matching PDAs (stacks of 8..40 symbols, runs of equal letters)
     if rec.shard % 4 == 3:
         anbn = pd.make(['q0', 'q1', 'q2', 'q3'], 'ab', ['$', 'A'], [('q0', None, None, 'q1', '$'), ('q1', 'a', None, 'q1', 'A'), ('q1', None, None, 'q2', None),
